@@ -1,4 +1,4 @@
-//! FROZEN COPY of lightmotif-tfmpvalue/src/lib.rs (at the repaired tree, /repo commit 3cbe747), used
+//! FROZEN COPY of lightmotif-tfmpvalue/src/lib.rs (at the repaired tree, /repo commit ec19da0), used
 //! ONLY to evaluate the signature of the known finding KF-C13-exhausted-window-converges: a
 //! lower-side failure on a converged iteration is "the inherent window limitation of the reference
 //! algorithm" iff this copy reproduces the library's iterations exactly. It is never an oracle.
@@ -153,6 +153,16 @@ impl<A: Alphabet, M: AsRef<ScoringMatrix<A>>> TfmPvalue<A, M> {
             maxs[i] = maxs[i + 1] + self.max_score_rows[i];
         }
 
+        // probability of a suffix of regular symbols starting at position i:
+        // one, unless the background gives some frequency to the wildcard
+        let regular = bg[..K - 1].iter().map(|&f| f as f64).sum::<f64>();
+        let mut suffix = vec![1.0; M + 1];
+        if bg[K - 1] > 0.0 {
+            for i in (0..M).rev() {
+                suffix[i] = suffix[i + 1] * regular;
+            }
+        }
+
         // initialize the map at first position with background frequencies
         for k in 0..K - 1 {
             if self.int_matrix[0][k] + maxs[1] >= min {
@@ -176,7 +186,7 @@ impl<A: Alphabet, M: AsRef<ScoringMatrix<A>>> TfmPvalue<A, M> {
                         let occ = val * bg[k] as f64;
                         if sc > max {
                             // the score will be greater than max for all suffixes
-                            *r[M - 1 - pos].entry(max + 1).or_default() += occ;
+                            *r[M - 1 - pos].entry(max + 1).or_default() += occ * suffix[pos + 1];
                         } else {
                             *r[0].entry(sc).or_default() += occ;
                         }
